@@ -438,6 +438,61 @@ pub const GROUPS: &[(&str, &[(&str, &[Sel])])] = &[
             ),
         ],
     ),
+    // renetcode server: construction, handshake, incoming packets
+    (
+        "NcServerRecv",
+        &[
+            ("renetcode/src/lib.rs", &[Sel::Const("NETCODE_MAX_PACKET_BYTES"), Sel::Const("NETCODE_MAX_PENDING_CLIENTS")]),
+            (
+                "renetcode/src/server.rs",
+                &[
+                    Sel::Fn("find_client_mut_by_addr"),
+                    Sel::Method("NetcodeServer", "new"),
+                    Sel::Method("NetcodeServer", "handle_connection_request"),
+                    Sel::Method("NetcodeServer", "process_packet_internal"),
+                    Sel::Method("NetcodeServer", "process_packet"),
+                ],
+            ),
+        ],
+    ),
+    // renetcode: connect-token generation (client side / matchmaker)
+    (
+        "NcTokenGen",
+        &[(
+            "renetcode/src/token.rs",
+            &[Sel::Method("PrivateConnectToken", "generate"), Sel::Method("ConnectToken", "generate")],
+        )],
+    ),
+    // renetcode client
+    (
+        "NcClient",
+        &[
+            ("renetcode/src/packet.rs", &[Sel::Method("Packet", "connection_request_from_token")]),
+            (
+                "renetcode/src/client.rs",
+                &[
+                    Sel::Enum("ClientState"),
+                    Sel::Enum("ClientAuthentication"),
+                    Sel::Struct("NetcodeClient"),
+                    Sel::Method("NetcodeClient", "new"),
+                    Sel::Method("NetcodeClient", "is_connecting"),
+                    Sel::Method("NetcodeClient", "is_connected"),
+                    Sel::Method("NetcodeClient", "is_disconnected"),
+                    Sel::Method("NetcodeClient", "current_time"),
+                    Sel::Method("NetcodeClient", "client_id"),
+                    Sel::Method("NetcodeClient", "time_since_last_received_packet"),
+                    Sel::Method("NetcodeClient", "disconnect_reason"),
+                    Sel::Method("NetcodeClient", "server_addr"),
+                    Sel::Method("NetcodeClient", "disconnect"),
+                    Sel::Method("NetcodeClient", "process_packet"),
+                    Sel::Method("NetcodeClient", "generate_payload_packet"),
+                    Sel::Method("NetcodeClient", "update_internal_state"),
+                    Sel::Method("NetcodeClient", "generate_packet"),
+                    Sel::Method("NetcodeClient", "update"),
+                ],
+            ),
+        ],
+    ),
 ];
 
 pub fn work_list() -> Vec<WorkItem> {
@@ -526,12 +581,18 @@ pub const BORROWED_FIELDS_OK: &[(&str, &str, &str)] = &[(
 
 /// Functions whose RETURN type holds a `&mut` reference that is nevertheless translated by value: (file, fn, justification).
 /// (Finders — see `FnInfo::ref_ret` — need no entry; every other `&mut` in a return type is a TRANSLATE-ERROR.)
-pub const BORROWED_RETURN_OK: &[(&str, &str, &str)] = &[(
-    "renetcode/src/server.rs",
-    "NetcodeServer::generate_payload_packet",
-    "returns `&mut self.out[..len]`, a slice of the scratch buffer built in return position: the value is the snapshot of \
-     those bytes at the return",
-)];
+pub const BORROWED_RETURN_OK: &[(&str, &str, &str)] = &[
+    (
+        "renetcode/src/server.rs",
+        "NetcodeServer::generate_payload_packet",
+        "returns `&mut self.out[..len]`, a slice of the scratch buffer built in return position: the value is the snapshot of \
+         those bytes at the return",
+    ),
+    ("renetcode/src/client.rs", "NetcodeClient::disconnect", "returns `&mut self.out[..len]` (as above)"),
+    ("renetcode/src/client.rs", "NetcodeClient::generate_payload_packet", "returns `&mut self.out[..len]` (as above)"),
+    ("renetcode/src/client.rs", "NetcodeClient::generate_packet", "returns `&mut self.out[..encoded]` (as above)"),
+    ("renetcode/src/client.rs", "NetcodeClient::update", "passes on the slice `generate_packet` returns"),
+];
 
 /// External types that are not translated but mapped to an opaque RustSem type
 /// (last path segments, Lean name).
@@ -546,3 +607,9 @@ pub const OPAQUE_TYPES: &[(&[&str], &str)] = &[
     // `chacha20poly1305::aead::Error as CryptoError`: the one-point error of the external AEAD
     (&["CryptoError"], "RustSem.CryptoError"),
 ];
+
+/// External sources of randomness (not translated): a call `f()` of one of these fns (by simple name; it must not be a
+/// translated fn) becomes an EXPLICIT parameter `rand<k> : List Nat` of the generated function — the k-th call site in
+/// textual order (the fresh bytes the call returns).  Call sites inside loops / closures are rejected.  A translated fn
+/// that calls a fn with such parameters gets one parameter of its own per parameter of the callee (same rule).
+pub const RANDOM_SOURCES: &[(&str, &str)] = &[("renetcode/src/crypto.rs", "generate_random_bytes")];
